@@ -34,10 +34,12 @@ theorem view_isSome : (gv : GoVal) → (g : GoTy) → (t : Ty) → (nul : Bool) 
   | .ptr x, g, t, nul, hc, hwt => by
     cases g <;> simp [wt] at hwt
     rename_i g1
-    obtain ⟨_, hc1⟩ := compatible_ptr hc
+    have hc1 := compatible_ptr hc
     obtain ⟨v, hv⟩ := view_isSome x g1 t false hc1 hwt
     simp [view, hv]
-  | .nilIface, g, t, nul, _, hwt => by simp [wt] at hwt
+  | .nilBare, g, t, nul, _, hwt => by
+    simp only [wt, Bool.and_eq_true] at hwt
+    simp [view, hwt.1, hwt.2]
   | .bool b, g, t, nul, _, hwt => by
     cases nul <;> simp [wt] at hwt
     cases g <;> cases t <;> simp at hwt
@@ -47,17 +49,11 @@ theorem view_isSome : (gv : GoVal) → (g : GoTy) → (t : Ty) → (nul : Bool) 
     cases g <;> cases t <;> simp at hwt
     simp [view]
   | .bytes b, g, t, nul, _, hwt => by
-    cases nul <;> simp [wt] at hwt
-    cases g <;> cases t <;> simp at hwt
-    simp [view]
+    cases nul <;> cases g <;> cases t <;> simp [wt] at hwt <;> simp [view, hwt]
   | .link b, g, t, nul, _, hwt => by
-    cases nul <;> simp [wt] at hwt
-    cases g <;> cases t <;> simp at hwt
-    simp [view]
+    cases nul <;> cases g <;> cases t <;> simp [wt] at hwt <;> simp [view, hwt]
   | .node b, g, t, nul, _, hwt => by
-    cases nul <;> simp [wt] at hwt
-    cases g <;> cases t <;> simp at hwt
-    simp [view]
+    cases nul <;> cases g <;> cases t <;> simp [wt] at hwt <;> simp [view, hwt]
   | .nilSlice, g, t, nul, _, hwt => by
     cases nul <;> simp [wt] at hwt
     cases g <;> cases t <;> simp at hwt
@@ -83,12 +79,11 @@ theorem view_isSome : (gv : GoVal) → (g : GoTy) → (t : Ty) → (nul : Bool) 
       | some m' => simp [view, hf]
     | _ => cases g <;> simp at hwt
   | .slice xs, g, t, nul, hc, hwt => by
-    cases nul <;> simp [wt] at hwt
-    cases g <;> cases t <;> simp at hwt
+    cases g <;> cases t <;> simp [wt, isBare] at hwt
     rename_i ge et enul
     have hc' : compatible ge et enul = true := by simpa [compatible] using hc
     obtain ⟨ws, hws⟩ := viewList_isSome xs ge et enul hc' hwt
-    simp [view, hws]
+    simp [view, isBare, hws]
   | .struct vs, g, t, nul, hc, hwt => by
     cases nul <;> simp [wt] at hwt
     cases g <;> cases t <;> simp at hwt
@@ -160,20 +155,16 @@ theorem viewFields_isSome : (vs : GoVals) → (gfs : GoFields) → (fs : List Fi
           simp only [hs] at hcF hwF ⊢
           cases x with
           | nilPtr => exact ⟨_, rfl⟩
-          | ptr v => exact view_isSome v g1 f.ty f.nullable hcF hwF
+          | ptr v =>
+            simp only [Bool.and_eq_true] at hcF
+            exact view_isSome v g1 f.ty f.nullable hcF.2 hwF
           | _ => simp at hwF
         | optBare =>
           simp only [hs] at hcF hwF ⊢
-          by_cases hx : bareNil g = some x
+          by_cases hx : x = .nilBare
           · simp [hx]
-          · simp only [hx, if_false, decide_false, Bool.false_or] at hwF ⊢
-            exact view_isSome x g f.ty false hcF hwF
-        | nulBare =>
-          simp only [hs] at hcF hwF ⊢
-          by_cases hx : bareNil g = some x
-          · simp [hx]
-          · simp only [hx, if_false, decide_false, Bool.false_or] at hwF ⊢
-            exact view_isSome x g f.ty false hcF hwF
+          · simp only [hx, if_false, decide_false, Bool.false_or, Bool.and_eq_true] at hwF ⊢
+            exact view_isSome x g f.ty false hcF hwF.2
         | bad => simp [hs] at hcF
 theorem viewUnion_isSome : (vs : GoVals) → (gfs : GoFields) → (ms : List Member) →
     compatMembers gfs ms = true → wtUnion gfs ms vs = true → ∃ v, viewUnion gfs ms vs = some v
